@@ -235,7 +235,7 @@ Section Once.
       NoDup (reads s) -> incl (reads s) (keys s) ->
       fst (ld g s) <> inl EFuel /\ NoDup (reads (snd (ld g s))) /\
       (forall m, fst (ld g s) = inr m ->
-         K (snd (ld g s)) /\ incl (keys s) (keys (snd (ld g s))) /\ In g (keys (snd (ld g s))) /\
+         K (snd (ld g s)) /\ incl (keys s) (keys (snd (ld g s))) /\
          incl (reads (snd (ld g s))) (keys (snd (ld g s)))).
 
   Lemma load_model_once k ld m g s r s' :
@@ -255,9 +255,11 @@ Section Once.
     destruct (Hld g s HK Eg Hf Hnd Hinc) as [Hnf [Hnd' Hok]].
     destruct (ld g s) as [[e|m'] s1] eqn:El; cbn [fst snd] in *.
     - intro H. inversion H; subst. split; [congruence|]. split; [exact Hnd' | discriminate].
-    - intro H. inversion H; subst. destruct (Hok m' eq_refl) as [HK1 [Hi1 [Hg1 Hr1]]].
-      unfold K. autorewrite with st. rewrite (keys_dset_in g m' (allm s1) Hg1).
-      split; [discriminate|]. split; [exact Hnd'|]. intros _. split; [exact HK1|]. split; assumption.
+    - intro H. inversion H; subst. destruct (Hok m' eq_refl) as [HK1 [Hi1 Hr1]].
+      split; [discriminate|]. split; [autorewrite with st; exact Hnd'|]. intros _.
+      split; [apply K_dset; exact HK1|]. autorewrite with st.
+      destruct (keys_dset_cases g m' (allm s1)) as [[_ ->]|[_ ->]]; [split; assumption|].
+      split; [apply incl_appl; exact Hi1 | apply incl_appl; exact Hr1].
   Qed.
 
   Lemma load_files_once k ld m gs : forall s r s',
@@ -348,7 +350,7 @@ Section Once.
     { subst s3. destruct (main && negb (cglobal c))%bool; reflexivity. }
     assert (Hld : loader_ok k (load_file fs c k false)).
     { intros g' s' HK' Hg' Hf' Hnd' Hinc'. destruct (IH false g' s' HK' Hg' Hf' Hnd' Hinc') as [A [B C]].
-      split; [exact A|]. split; [exact B|]. intros m Hm. destruct (C m Hm) as [C1 [C2 C3]]. destruct (C3 eq_refl). auto. }
+      split; [exact A|]. split; [exact B|]. intros m Hm. destruct (C m Hm) as [C1 [C2 C3]]. destruct (C3 eq_refl) as [_ D2]. auto. }
     assert (Hpre3 : forall x, In x (reads s3) -> In x (keys s3) \/ x = g).
     { rewrite Hreads3. intros x Hx. apply in_app_or in Hx as [Hx|[Hx|[]]]; [left|right; auto].
       destruct Hkeys3 as [[-> _]|[-> _]]; [apply Hinc, Hx | apply in_or_app; left; apply Hinc, Hx]. }
@@ -363,6 +365,80 @@ Section Once.
     assert (Hnd3 : NoDup (reads s3)) by (rewrite Hreads3; exact Hnd1).
     destruct (if (clazy c && is_nil (frefs fc))%bool then (None, s3)
               else load_stmts (load_file fs c k false) mid g (fimports fc) s3) as [r s4] eqn:E4.
+    assert (Hres : r <> Some EFuel /\ NoDup (reads s4) /\
+                   (r = None -> K s4 /\ incl (keys s3) (keys s4) /\ (forall x, In x (reads s4) -> In x (keys s4) \/ x = g))).
+    { destruct (clazy c && is_nil (frefs fc))%bool.
+      - inversion E4; subst. split; [discriminate|]. split; [exact Hnd3|]. intros _. split; [exact HK3|]. split; [apply incl_refl | exact Hpre3].
+      - exact (load_stmts_once _ _ _ _ _ _ _ _ Hld HK3 Hf3 Hnd3 Hpre3 E4). }
+    destruct Hres as [Hnf [Hnd4 Hok]].
+    destruct r as [e|].
+    { cbn [fst snd]. split; [congruence|]. split; [rewrite reads_handler; exact Hnd4 | discriminate]. }
+    destruct (Hok eq_refl) as [HK4 [Hi4 Hr4]].
+    assert (Hincl : incl (keys s) (keys s4)).
+    { eapply incl_tran; [|exact Hi4]. destruct Hkeys3 as [[-> _]|[-> _]]; [apply incl_refl | apply incl_appl, incl_refl]. }
+    assert (Hmainfalse : main = false -> In g (keys s4) /\ incl (reads s4) (keys s4)).
+    { intro Hm. subst main. destruct Hkeys3 as [[_ E]|[E _]].
+      - discriminate E.
+      - assert (Hg4 : In g (keys s4)) by (apply Hi4; rewrite E; apply in_or_app; right; left; reflexivity).
+        split; [exact Hg4|]. intros x Hx. destruct (Hr4 x Hx) as [H|H]; [exact H | subst; exact Hg4]. }
+    destruct main.
+    - cbn [fst snd]. split; [discriminate|]. split; [exact Hnd4|]. intros m _. split; [exact HK4|]. split; [exact Hincl | discriminate].
+    - destruct (fmp fc); cbn [fst snd].
+      + split; [discriminate|]. split; [exact Hnd4 | discriminate].
+      + split; [discriminate|]. split; [exact Hnd4|]. intros m _. split; [exact HK4|]. split; [exact Hincl | exact Hmainfalse].
+  Qed.
+  (* the same with an external cache (imports across languages): the fuel never runs out as long as fuel + |registered files| exceeds the number of files *)
+  Lemma load_file_x_once xc fuel : forall main g s,
+    K s -> ~ In g (keys s) -> n + 1 <= fuel + fk s ->
+    NoDup (reads s) -> incl (reads s) (keys s) ->
+    fst (load_file_x xc fs c fuel main g s) <> inl EFuel /\ NoDup (reads (snd (load_file_x xc fs c fuel main g s))) /\
+    (forall m, fst (load_file_x xc fs c fuel main g s) = inr m ->
+       K (snd (load_file_x xc fs c fuel main g s)) /\ incl (keys s) (keys (snd (load_file_x xc fs c fuel main g s))) /\
+       (main = false -> In g (keys (snd (load_file_x xc fs c fuel main g s))) /\
+                        incl (reads (snd (load_file_x xc fs c fuel main g s))) (keys (snd (load_file_x xc fs c fuel main g s))))).
+  Proof.
+    induction fuel as [|k IH]; intros main g s HK Hg Hf Hnd Hinc.
+    { exfalso. pose proof (K_length s HK). (* fuel 0: n + 1 <= fk <= n *) lia. }
+    cbn [load_file_x].
+    destruct (nth_error fs g) as [fc|] eqn:Efc.
+    2:{ cbn. split; [discriminate|]. split; [exact Hnd | discriminate]. }
+    assert (Hgn : g < n) by (apply nth_error_Some; congruence).
+    assert (Hfresh : ~ In g (reads s)) by (intro H; apply Hg, Hinc, H).
+    assert (Hnd1 : NoDup (reads s ++ [g])) by (apply NoDup_snoc; assumption).
+    destruct (fsyn fc).
+    { cbn. split; [discriminate|]. split; [exact Hnd1 | discriminate]. }
+    rewrite src_register_before.
+    set (s1 := with_reads s (reads s ++ [g])).
+    set (mid := length (heap s1)).
+    set (s2 := alloc g fc s1).
+    set (s3 := if (main && negb (cglobal c))%bool then s2 else set_all g mid s2).
+    assert (HK3 : K s3).
+    { subst s3. destruct (main && negb (cglobal c))%bool; [exact HK | apply K_dset; exact HK]. }
+    assert (Hkeys3 : (keys s3 = keys s /\ (main && negb (cglobal c))%bool = true) \/
+                     (keys s3 = keys s ++ [g] /\ (main && negb (cglobal c))%bool = false)).
+    { subst s3. destruct (main && negb (cglobal c))%bool; [left; split; reflexivity|]. right. split; [|reflexivity].
+      autorewrite with st. apply keys_dset_notin. exact Hg. }
+    assert (Hreads3 : reads s3 = reads s ++ [g]).
+    { subst s3. destruct (main && negb (cglobal c))%bool; reflexivity. }
+    assert (Hld : loader_ok k (with_ext xc (load_file_x xc fs c k false))).
+    { intros g' s' HK' Hg' Hf' Hnd' Hinc'. unfold with_ext. destruct (xc g').
+      { cbn [fst snd]. split; [discriminate|]. split; [exact Hnd'|]. intros m0 _. split; [exact HK'|]. split; [apply incl_refl | exact Hinc']. }
+      destruct (IH false g' s' HK' Hg' Hf' Hnd' Hinc') as [A [B C]].
+      split; [exact A|]. split; [exact B|]. intros m Hm. destruct (C m Hm) as [C1 [C2 C3]]. destruct (C3 eq_refl) as [_ D2]. auto. }
+    assert (Hpre3 : forall x, In x (reads s3) -> In x (keys s3) \/ x = g).
+    { rewrite Hreads3. intros x Hx. apply in_app_or in Hx as [Hx|[Hx|[]]]; [left|right; auto].
+      destruct Hkeys3 as [[-> _]|[-> _]]; [apply Hinc, Hx | apply in_or_app; left; apply Hinc, Hx]. }
+    assert (Hf3 : n + 1 <= k + fk (update_in_repo mid g s3)).
+    { destruct (keys_update_in_repo mid g s3) as [Hin [Hi Hc]].
+      destruct Hkeys3 as [[E _]|[E _]].
+      - destruct Hc as [Hc|[Hni Hc]].
+        + exfalso. rewrite Hc, E in Hin. tauto.
+        + unfold fk in *. rewrite Hc, E, fk_snoc_file by exact Hgn. lia.
+      - assert (H : fk s3 <= fk (update_in_repo mid g s3)) by (apply fk_mono; assumption).
+        unfold fk in *. rewrite E, fk_snoc_file in H by exact Hgn. lia. }
+    assert (Hnd3 : NoDup (reads s3)) by (rewrite Hreads3; exact Hnd1).
+    destruct (if (clazy c && is_nil (frefs fc))%bool then (None, s3)
+              else load_stmts (with_ext xc (load_file_x xc fs c k false)) mid g (fimports fc) s3) as [r s4] eqn:E4.
     assert (Hres : r <> Some EFuel /\ NoDup (reads s4) /\
                    (r = None -> K s4 /\ incl (keys s3) (keys s4) /\ (forall x, In x (reads s4) -> In x (keys s4) \/ x = g))).
     { destruct (clazy c && is_nil (frefs fc))%bool.
@@ -2058,7 +2134,7 @@ Proof.
   assert (Hr2 : reads s2 = []) by reflexivity.
   assert (Hld : loader_ok fs (S (length fs)) (load_file fs c (S (length fs)) false)).
   { intros g' s' HK' Hg' Hf' Hnd' Hinc'. destruct (load_file_once fs c (S (length fs)) false g' s' HK' Hg' Hf' Hnd' Hinc') as [A [B C]].
-    split; [exact A|]. split; [exact B|]. intros m' Hm. destruct (C m' Hm) as [C1 [C2 C3]]. destruct (C3 eq_refl). auto. }
+    split; [exact A|]. split; [exact B|]. intros m' Hm. destruct (C m' Hm) as [C1 [C2 C3]]. destruct (C3 eq_refl) as [_ D2]. auto. }
   destruct (if (clazy c && is_nil (frefs fc))%bool then (None, s2)
             else load_stmts (load_file fs c (S (length fs)) false) m k (fimports fc) s2) as [r s4] eqn:E4.
   assert (Hres : r <> Some EFuel /\ NoDup (reads s4)).
@@ -2087,3 +2163,60 @@ Proof.
   { destruct (Stable_begin_op c s (run_hist_stable c ops fs0 (init_state b) (Stable_init b))) as [A _]. exact A. }
   split; intros; [apply load_main_once | apply load_str_once]; exact HK.
 Qed.
+
+(* ================================================================== 10. imports across languages (external cache) *)
+Theorem load_main_x_once_raw x xvals fs c f s :
+  K (begin_op c s) ->
+  fst (load_main_x_raw x xvals fs c f s) <> inl EFuel /\ NoDup (reads (snd (load_main_x_raw x xvals fs c f s))).
+Proof.
+  intro HK. unfold load_main_x_raw.
+  set (s0 := begin_op c s) in *.
+  assert (Hr0 : reads s0 = []) by reflexivity.
+  destruct (if cglobal c then dget f (allm s0) else None) as [m|] eqn:Ec.
+  { destruct (model_processors_on_cached && flag_of fmp m s0)%bool; cbn [fst snd]; rewrite Hr0; split; try discriminate; constructor. }
+  assert (Hf : ~ In f (keys s0)).
+  { destruct (cglobal c) eqn:Eg; [apply dget_None_notin; exact Ec|]. subst s0. unfold begin_op. rewrite Eg. cbn. tauto. }
+  destruct (load_file_x_once fs c x (S (length fs)) true f s0 HK Hf ltac:(lia)
+              ltac:(rewrite Hr0; constructor) ltac:(rewrite Hr0; intros y [])) as [A [B _]].
+  destruct (load_file_x x fs c (S (length fs)) true f s0) as [[e|m] s1]; cbn [fst snd] in *.
+  - split; assumption.
+  - split; [apply fst_finish_main_nofuel | rewrite reads_finish_main; exact B].
+Qed.
+
+Theorem load_main_x_once x xvals fs c f s :
+  K (begin_op c s) ->
+  fst (load_main_x x xvals fs c f s) <> inl EFuel /\ NoDup (reads (snd (load_main_x x xvals fs c f s))).
+Proof. intro H. unfold load_main_x. cbn [fst snd]. rewrite reads_tidy. apply load_main_x_once_raw. exact H. Qed.
+
+Lemma load_model_cong ld1 ld2 m g s : (forall g' s', ld1 g' s' = ld2 g' s') -> load_model ld1 m g s = load_model ld2 m g s.
+Proof. intro H. unfold load_model. rewrite H. reflexivity. Qed.
+Lemma load_files_cong ld1 ld2 m gs : (forall g' s', ld1 g' s' = ld2 g' s') -> forall s, load_files ld1 m gs s = load_files ld2 m gs s.
+Proof.
+  intro H. induction gs as [|g gs IH]; intro s; cbn [load_files]; [reflexivity|].
+  rewrite (load_model_cong ld1 ld2 m g s H). destruct (load_model ld2 m g s) as [[e|] s1]; [reflexivity | apply IH].
+Qed.
+Lemma load_stmts_cong ld1 ld2 m mf stmts : (forall g' s', ld1 g' s' = ld2 g' s') -> forall s, load_stmts ld1 m mf stmts s = load_stmts ld2 m mf stmts s.
+Proof.
+  intro H. induction stmts as [|gs rest IH]; intro s; cbn [load_stmts]; [reflexivity|].
+  destruct gs as [|g0 gs0]; [reflexivity|].
+  rewrite (load_files_cong ld1 ld2 m (g0 :: gs0) H). destruct (load_files ld2 m (g0 :: gs0) _) as [[e|] s2]; [reflexivity | apply IH].
+Qed.
+
+Lemma load_file_x_none fs c fuel : forall main g s,
+  load_file_x (fun _ => None) fs c fuel main g s = load_file fs c fuel main g s.
+Proof.
+  induction fuel as [|k IH]; intros main g s; [reflexivity|]. cbn [load_file_x load_file].
+  destruct (nth_error fs g) as [fc|]; [|reflexivity]. destruct (fsyn fc); [reflexivity|].
+  rewrite (load_stmts_cong (with_ext (fun _ => None) (load_file_x (fun _ => None) fs c k false)) (load_file fs c k false));
+    [reflexivity|]. intros g' s'. unfold with_ext. apply IH.
+Qed.
+
+Theorem load_main_x_none fs c f s : load_main_x (fun _ => None) [] fs c f s = load_main fs c f s.
+Proof.
+  unfold load_main_x, load_main, load_main_x_raw, load_main_raw. rewrite load_file_x_none, app_nil_r. reflexivity.
+Qed.
+
+Lemma load_model_ext_hit x ld m g s m' :
+  dhas g (local_of m s) = false -> dget g (allm s) = None -> x g = Some m' ->
+  load_model (with_ext x ld) m g s = (None, set_local m g m' (set_all g m' s)).
+Proof. intros H1 H2 H3. unfold load_model, with_ext. rewrite H1, H2, H3. reflexivity. Qed.
